@@ -923,6 +923,8 @@ class Engine:
                 return True
             except RaiseEx:
                 return False
+        if (f is int.from_bytes or (getattr(f, '__name__', '') == 'from_bytes')) and hasattr(args[0], '__pyvc_from_bytes__'):
+            return args[0].__pyvc_from_bytes__(self, args[1] if len(args) > 1 else kwargs.get('byteorder', 'big'))
         if f is int.from_bytes or (getattr(f, '__name__', '') == 'from_bytes'):
             b = self.as_sbytes(args[0])
             order = args[1] if len(args) > 1 else kwargs.get('byteorder', 'big')
